@@ -10,13 +10,13 @@ import numpy as np
 
 from . import samplercase
 from .. import drive, env, workloads
-from ..instrument import Hooks, bound_geometry_digest, digest_arrays, result_digest
+from ..instrument import Hooks, bound_geometry_digest, digest_arrays, points_array, result_digest
 
 ID = 'C12'
 LEVEL = 'exploration'
 DECIDING = 'snapshots'
 CHUNK = {'quick': 1, 'thorough': 2}
-TIMEOUT = 1500
+TIMEOUT = {'quick': 600, 'thorough': 1500}
 FAMILIES = ['gauss', 'mixture', 'funnel', 'plateau', 'periodic', 'ring', 'islands', 'corr']
 RULE = ('two kinds of case. (history) one seeded Sampler driven through slices, resumes and discard_exploration '
         'toggles at arbitrary batch boundaries (also before exploration ended and with an empty post-exploration '
@@ -72,11 +72,7 @@ def _stats(s):
         if np.sum(s.shell_n) > 0:
             parts.append(np.array([s.eta], dtype=float))
             out = s.posterior(return_blobs=s.blobs is not None)
-            pts = out[0]
-            if isinstance(pts, dict):
-                pts = np.column_stack([np.asarray(pts[k]) for k in sorted(pts)])
-            elif getattr(pts, 'dtype', None) == object:
-                pts = np.array([[float(r[k]) for k in sorted(r)] for r in pts])
+            pts = points_array(out[0])
             parts += [np.asarray(pts), out[1], out[2]] + ([out[3]] if len(out) > 3 else [])
     return digest_arrays(*parts)
 
